@@ -98,7 +98,7 @@ Definition has_count (k : tkind) : bool :=
    [bytes] what the entry really serialises to.  Returns the new state and the handle (old offset). *)
 Definition tbl_add (md : mode) (s : tbl) (st : sumstyle) (claimed : N) (bytes : list N) : option (tbl * N) :=
   let k := t_kind s in
-  do new_len <- add_m md U32 (cast U32 claimed) (t_len s);
+  do new_len <- add_c U32 (cast U32 claimed) (t_len s);           (* old_len.checked_add(len).expect(..): both profiles *)
   do new_cnt <- (match k with
                  | KViot => Some ((t_cnt s + 1) mod U16)          (* nodes.len() as u16 *)
                  | KRhct => add_m md U32 (t_cnt s) 1
